@@ -5,11 +5,15 @@ import Cli.Scaffold
 
 Op lines (strings are given as dot-separated hexadecimal code points, `-` = empty):
 
-* `name <arg>`                          → `ok <lower> <underscore> <upper> <pascal> <keypair-file>` | `err`
-* `render <template> <name> <pubkey>`   → `ok <len> <hash>`   (name must be an accepted name, else `bad-op`)
-* `rendertpl <file> <name> <pubkey>`    → same, for a template of the generated table
-* `scaffold <arg> pre=<none|file|dir|emptydir|symlink|symlinkdir|dangling> fault=<none|cls:k:ERRNO>`
-                                        → `<ok|err|panic> <complete n=<entries> h=<listing hash>|clean|dirty>`
+* `name <arg>`            → `ok <package> <lib> <Pascal> <keypair-file>` | `err`
+* `project <arg>`         → `ok <entry> <entry> …` | `err` — the whole generated tree, sorted by path: `<path>/` for a
+                            directory, `<path>=<hex of the UTF-8 content>` for a file (public key shown as `<<PUBKEY>>`,
+                            the keypair file's content as `KEYPAIR`)
+* `replace <pat> <rep> <text>` → `ok <result>` (model of `str::replace`; `pat` non-empty)
+* `scaffold <arg> pre=<none|file|dir|emptydir|symlink|symlinkdir|dangling> fault=<none|cls:k:ERRNO|cls:a..b:ERRNO> [at=raw]`
+                          → `<ok|err|panic> <complete n=<entries> h=<listing hash>|clean|dirty>`
+  (the pre-existing entry sits at the trimmed name, or with `at=raw` at the raw argument; `a..b` = every call
+  from the a-th to the b-th fails)
 
 Everything is computed by the definitions the theorems of `Cli.Props.C20` are about.
 -/
@@ -40,6 +44,9 @@ def entryHash (isDirNode : Bool) (q : Path) : Nat :=
 def okErrnos : List String :=
   ["EACCES", "ENOSPC", "EIO", "EXDEV", "EROFS", "EMFILE", "EPERM", "EDQUOT", "ENOTDIR", "EISDIR", "ENAMETOOLONG", "ELOOP", "ENOMEM", "EBUSY", "ENOTEMPTY"]
 
+def parseNat (k : String) : Option Nat :=
+  if !k.isEmpty && k.all Char.isDigit then k.toNat? else none
+
 def parseFault (s : String) : Option Fault :=
   if s = "none" then some (fun _ _ => none) else
   match s.splitOn ":" with
@@ -50,9 +57,16 @@ def parseFault (s : String) : Option Fault :=
     let err : Option Errno :=
       if e = "EEXIST" then some .eexist else if e = "ENOENT" then some .enoent
       else if okErrnos.contains e then some .other else none
-    match cls, (if !k.isEmpty && k.all Char.isDigit then k.toNat? else none), err with
-    | some cls, some k, some err =>
-      if k = 0 then none else some (fun c n => if c = cls ∧ n = k then some err else none)
+    let range : Option (Nat × Nat) :=
+      match k.splitOn ".." with
+      | [a] => (parseNat a).map (fun a => (a, a))
+      | [a, b] => match parseNat a, parseNat b with
+        | some a, some b => some (a, b)
+        | _, _ => none
+      | _ => none
+    match cls, range, err with
+    | some cls, some (a, b), some err =>
+      if a = 0 || b < a then none else some (fun c n => if c = cls ∧ a ≤ n ∧ n ≤ b then some err else none)
     | _, _, _ => none
   | _ => none
 
@@ -61,7 +75,7 @@ def stagingName (name : Name) (k : Nat) : Name :=
 
 def keepName : Name := "keep".toList
 
-def driverKeys : Keys := { pubkey := "PUBKEY".toList, json := "[JSON]".toList }
+def driverKeys : Keys := { pubkey := "<<PUBKEY>>".toList, json := "KEYPAIR".toList }
 
 /-- Relative paths that can be populated by the scaffold: all non-empty prefixes of step paths. -/
 def prefixes (p : Path) : List Path := (List.range p.length).map (fun i => p.take (i + 1))
@@ -72,18 +86,21 @@ def candidates (name : Name) : List Path :=
 def validComponent (t : List Char) : Bool :=
   !t.isEmpty && !t.contains '/' && !t.contains (Char.ofNat 0) && t != ['.'] && t != ['.', '.']
 
-def scaffoldOp (arg : List Char) (pre : String) (flt : Fault) : String :=
+/-- `atRaw`: the pre-existing entry is placed at the raw (untrimmed) argument, not at the trimmed name. -/
+def scaffoldOp (arg : List Char) (pre : String) (flt : Fault) (atRaw : Bool) : String :=
   let t := trim arg
   if arg.contains (Char.ofNat 0) || arg.length > 64 then "bad-op" else
   let base : FS := fun _ => none
+  let pl : List Char := if atRaw then arg else t
   let fs0? : Option FS :=
-    if pre = "none" then some base
+    if atRaw && (pre = "none" || arg == t || !validComponent arg) then none
+    else if pre = "none" then some base
     else if !validComponent t then none
-    else if pre = "file" then some (upd base [t] (.file ['x']))
-    else if pre = "dir" then some (upd (upd base [t] .dir) [t, keepName] (.file ['x']))
-    else if pre = "emptydir" then some (upd base [t] .dir)
-    else if pre = "symlink" ∨ pre = "symlinkdir" then some (upd base [t] (.symlink true))
-    else if pre = "dangling" then some (upd base [t] (.symlink false))
+    else if pre = "file" then some (upd base [pl] (.file ['x']))
+    else if pre = "dir" then some (upd (upd base [pl] .dir) [pl, keepName] (.file ['x']))
+    else if pre = "emptydir" then some (upd base [pl] .dir)
+    else if pre = "symlink" ∨ pre = "symlinkdir" then some (upd base [pl] (.symlink true))
+    else if pre = "dangling" then some (upd base [pl] (.symlink false))
     else none
   match fs0? with
   | none => "bad-op"
@@ -92,12 +109,15 @@ def scaffoldOp (arg : List Char) (pre : String) (flt : Fault) : String :=
     let uni := candidates t
     let stagings := (List.range 3).map (stagingName t)
     let watched : List Path :=
-      [[t], [t, keepName]] ++ uni.map (t :: ·) ++ stagings.flatMap (fun s => [s] :: uni.map (s :: ·))
+      [[t], [t, keepName], [arg], [arg, keepName]] ++ uni.map (t :: ·) ++ uni.map (arg :: ·) ++
+        stagings.flatMap (fun s => [s] :: uni.map (s :: ·))
     let clean := watched.all (fun p => w.fs p == fs0 p)
     let complete :=
       fs0 [t] == none && w.fs [t] == some .dir &&
       uni.all (fun q => w.fs (t :: q) == projectTree t driverKeys q) &&
       w.fs [t, keepName] == none &&
+      (arg == t || (w.fs [arg] == fs0 [arg] && w.fs [arg, keepName] == fs0 [arg, keepName] &&
+        uni.all (fun q => w.fs (arg :: q) == none))) &&
       stagings.all (fun s => w.fs [s] == none && uni.all (fun q => w.fs (s :: q) == none))
     let stS := match st with | .ok => "ok" | .err => "err" | .panic => "panic"
     if complete then
@@ -109,12 +129,34 @@ def scaffoldOp (arg : List Char) (pre : String) (flt : Fault) : String :=
     else if clean then s!"{stS} clean"
     else s!"{stS} dirty"
 
-def renderOp (tpl name pubkey : List Char) : String :=
-  match validateName name with
-  | .error _ => "bad-op"
-  | .ok n =>
-    let out := render (TemplateValues.new n pubkey) tpl
-    s!"ok {out.length} {hashChars out}"
+def hexOfString (cs : List Char) : String :=
+  let bytes := (String.ofList cs).toUTF8
+  if bytes.size = 0 then "-" else
+  String.ofList (bytes.toList.foldr (fun b acc => hexChar (b.toNat / 16) :: hexChar (b.toNat % 16) :: acc) [])
+
+/-- Insertion sort by the string order of the joined path (lists are short). -/
+def insertBy (x : String × String) : List (String × String) → List (String × String)
+  | [] => [x]
+  | y :: ys => if x.1 < y.1 then x :: y :: ys else y :: insertBy x ys
+
+def projectOp (arg : List Char) : String :=
+  if arg.contains (Char.ofNat 0) || arg.length > 64 then "bad-op" else
+  let (w, st) := newProject (fun _ _ => none) driverKeys stagingName arg { fs := fun _ => none }
+  let t := trim arg
+  match st with
+  | .ok =>
+    let entries := (candidates t).filterMap (fun q =>
+      let path := str (List.intercalate ['/'] q)
+      match w.fs (t :: q) with
+      | some .dir => some (path, path ++ "/")
+      | some (.file c) => some (path, path ++ "=" ++ (if c = driverKeys.json then "KEYPAIR" else hexOfString c))
+      | _ => none)
+    let sorted := entries.foldl (fun acc e => insertBy e acc) []
+    "ok " ++ " ".intercalate (sorted.map (·.2))
+  | _ => "err"
+
+def replaceOp (pat rep text : List Char) : String :=
+  if pat.isEmpty then "bad-op" else s!"ok {hexOfString (replaceAll pat rep text)}"
 
 def step (_ : Unit) (toks : List String) : Unit × String :=
   let ans : String :=
@@ -123,24 +165,32 @@ def step (_ : Unit) (toks : List String) : Unit × String :=
       match parseCps a with
       | none => "bad-op"
       | some raw =>
+        if raw.length > 64 then "bad-op" else
         match validateArg raw with
         | .error _ => "err"
         | .ok n =>
           let v := TemplateValues.new n []
-          s!"ok {str v.name_lowercase} {str v.name_lowercase_underscore} {str v.name_uppercase} {str v.name_pascalcase} {str (keypairFileName Generated.keypairSuffix n)}"
-    | ["render", t, n, k] =>
-      match parseCps t, parseCps n, parseCps k with
-      | some t, some n, some k => renderOp t n k
-      | _, _, _ => "bad-op"
-    | ["rendertpl", f, n, k] =>
-      match (Generated.templateNames.zip Generated.projectFiles).find? (fun x => x.1 == f), parseCps n, parseCps k with
-      | some (_, (_, t)), some n, some k => renderOp t n k
+          s!"ok {str v.name_lowercase} {str v.name_lowercase_underscore} {str v.name_pascalcase} {str (keypairFileName Generated.keypairSuffix n)}"
+    | ["project", a] =>
+      match parseCps a with
+      | some raw => projectOp raw
+      | none => "bad-op"
+    | ["replace", p, r, t] =>
+      match parseCps p, parseCps r, parseCps t with
+      | some p, some r, some t => replaceOp p r t
       | _, _, _ => "bad-op"
     | ["scaffold", a, pre, flt] =>
       match parseCps a, pre.dropPrefix? "pre=", flt.dropPrefix? "fault=" with
       | some raw, some pre, some flt =>
         match parseFault flt.toString with
-        | some f => scaffoldOp raw pre.toString f
+        | some f => scaffoldOp raw pre.toString f false
+        | none => "bad-op"
+      | _, _, _ => "bad-op"
+    | ["scaffold", a, pre, flt, "at=raw"] =>
+      match parseCps a, pre.dropPrefix? "pre=", flt.dropPrefix? "fault=" with
+      | some raw, some pre, some flt =>
+        match parseFault flt.toString with
+        | some f => scaffoldOp raw pre.toString f true
         | none => "bad-op"
       | _, _, _ => "bad-op"
     | _ => "bad-op"
